@@ -118,6 +118,22 @@ def native_mismatch_battery():
              ("MLPQPolicy width 8 -> 4", MLPQPolicy, (CartPole(),), dict(width_size=8, depth=1), (CartPole(),), dict(width_size=4, depth=1)),
              ("MLPActorCriticPolicy scalar Box action -> 3-dim Box action", MLPActorCriticPolicy, (Pendulum(),), dict(feature_size=4, feature_width=4, value_width=4, action_width=4),
               (GenericEnv(Box(-jnp.ones((3,)), jnp.ones((3,))), observation_space=Pendulum().observation_space),), dict(feature_size=4, feature_width=4, value_width=4, action_width=4))]
+    # every depth option of every policy class, all widths equal (so that a deeper checkpoint starts with leaves of exactly the shapes a shallower policy expects): deeper ->
+    # shallower must not return a policy that holds a prefix of the file, shallower -> deeper must not run past the end silently
+    import inspect
+    from lerax.policy import MLPSACPolicy
+    for cls_, env_ in ((MLPActorCriticPolicy, CartPole()), (MLPActorCriticPolicy, Pendulum()), (MLPQPolicy, CartPole()), (MLPSACPolicy, Pendulum())):
+        params = inspect.signature(cls_.__init__).parameters
+        widths = {p: 8 for p in params if "width" in p or p == "feature_size"}
+        for d_ in [p for p in params if "depth" in p]:
+            for a_, b_ in ((3, 2), (2, 1), (2, 3), (1, 2)):
+                try:
+                    n1 = sum(int(np.size(x)) for x in jax.tree.leaves(cls_(env_, key=jax.random.key(0), **widths, **{d_: a_})) if hasattr(x, "shape"))
+                    n2 = sum(int(np.size(x)) for x in jax.tree.leaves(cls_(env_, key=jax.random.key(0), **widths, **{d_: b_})) if hasattr(x, "shape"))
+                except Exception:
+                    continue
+                if n1 != n2:
+                    cases.append((f"{cls_.__name__}({type(env_).__name__}) {d_} {a_} -> {b_}, all widths 8", cls_, (env_,), dict(widths, **{d_: a_}), (env_,), dict(widths, **{d_: b_})))
     bad = []
     for name, cls, a1, k1, a2, k2 in cases:
         tmp = tempfile.mkdtemp(prefix="lvc_c18_")
